@@ -24,6 +24,16 @@
    the table and rejects four wrong-rule variants; every row is replayed
    against a real server with real keys and certificates
    (checks/c05_restrict.py).
+6. The converse clause in general: specs/Auth/AuthClient.tla models how the
+   client walks through authentication (method lists that change, partial
+   success, preferred_auth, agent keys before client keys, certificate then
+   plain key, the RSA certificate key-type retry, password used once,
+   keyboard-interactive with the password fallback); TLC checks
+   ValidAdmitted / Terminates / EachCredentialOnce / NoCredentialLeak ...
+   and rejects seven wrong-rule variants; every configuration is replayed
+   with a real client against a real server or a scripted raw server and
+   the sequence of requests it sends is compared with the model
+   (checks/c05_client.py).
 """
 
 import os
@@ -273,6 +283,10 @@ def main(ctx):
     # ---- 5. restrictions of the accepted credential (specs/Auth/Restrict.tla)
     from checks import c05_restrict
     c05_restrict.run(ctx, ctx.tier == 'quick')
+
+    # ---- 6. the client side of the dialogue (specs/Auth/AuthClient.tla) ----
+    from checks import c05_client
+    c05_client.run(ctx, ctx.tier == 'quick')
 
     ctx.assumptions += [
         'application validators are truthful functions of (user, credential)',
